@@ -37,7 +37,8 @@ def sanitized(F, fn, op, depth=0, seen=None, elem=None):
                             probs += sanitized(F, c2, ["cp", [0]], depth + 1, seen, elem=(o.fn, t[2][0])); ok = True
                 if not ok: probs.append("%s with a non-closure argument in %s" % (c, o.fn.path))
                 continue
-            if any(c.endswith(x) for x in ("Iterator::collect", "Option::<T>::unwrap_or_default", "Result::<T, E>::ok", "box_assume_init_into_vec_unsafe", "as std::ops::Deref>::deref", "as std::clone::Clone>::clone", "Option::<T>::unwrap_or", "Option::<T>::or")):
+            if any(c.endswith(x) for x in ("Iterator::collect", "Option::<T>::unwrap_or_default", "Result::<T, E>::ok", "box_assume_init_into_vec_unsafe", "as std::ops::Deref>::deref", "as std::clone::Clone>::clone", "Option::<T>::unwrap_or", "Option::<T>::or",
+                                           "as std::iter::IntoIterator>::into_iter", "Option::<T>::into_iter", "Option::<T>::iter", "Iterator::chain", "Iterator::cloned", "Iterator::flatten")):
                 if c.endswith("box_assume_init_into_vec_unsafe"):
                     for b2, s2, st in o.fn.stmts():
                         if st[0] == "=" and st[2][0] == "agg" and st[2][1].get("k") == "array":
@@ -90,6 +91,8 @@ def check(F, rep, tier):
         for bi, t in f.calls():
             if (mir.callee(t) or "").endswith("Vec::<T, A>::push"):
                 probs += sanitized(F, f, t[2][1])
+            elif (mir.callee(t) or "").endswith("Extend<T>>::extend") or (mir.callee(t) or "").endswith("Vec::<T, A>::extend"):
+                probs += sanitized(F, f, t[2][1])          # `parts.extend(option)`: what is appended must be sanitised too
         k = sum(1 for g in [f] + F.children(path) for bi, t in g.calls() if (mir.callee(t) or "") == SANITIZE)
         n_san += k
         if probs:
